@@ -1074,57 +1074,210 @@ Qed.
 
 Definition slack {X} (a : A X) : Z := match outcome a with Ok _ => 0 | _ => TagsMax end.
 
-Lemma clus_add_np g c p st : clus_add g c p st <> Panic.
-Proof.
-  unfold clus_add. destruct (match c_first c with Some (i, j) => negb ((i =? p_id p) && (j =? p_job p)) | None => false end); [discriminate|].
-  destruct (is_nil (p_body p)); cbn [c_n c_e].
-  - destruct (c_n c =? 0); [discriminate|]. destruct (_ <? _); discriminate.
-  - destruct (c_n c + 1 =? 0); [discriminate|]. destruct (_ <? _); discriminate.
-Qed.
-
+Lemma slack_nonneg {X} (a : A X) : 0 <= slack a.
+Proof. unfold slack, TagsMax. destruct (outcome a); lia. Qed.
 Lemma slack_ret {X} (x : X) B : 0 <= B -> np (ret x) /\ alloc (ret x) <= B + slack (ret x).
 Proof. intros. split; [discriminate|]. cbn. lia. Qed.
 Lemma slack_lift {X} (r : res X) B : r <> Panic -> 0 <= B -> np (lift r) /\ alloc (lift r) <= B + slack (lift r).
 Proof. intros Hr HB. split; [exact Hr|]. unfold slack, lift, alloc, outcome, TagsMax. cbn [fst snd]. destruct r; lia. Qed.
 
-Lemma recv_unpack_spec fuel :
-  (forall self st p, bytes_ok (p_body p) = true ->
-     np (recv_b fuel self st p) /\ alloc (recv_b fuel self st p) <= 2 * len (p_body p) + slack (recv_b fuel self st p)) /\
-  (forall self st x body, bytes_ok body = true ->
-     np (unpack_b fuel self st x body) /\ alloc (unpack_b fuel self st x body) <= 2 * len body + slack (unpack_b fuel self st x body)).
+(* ---- clusters: cluster.add / cluster.done ---- *)
+(* what every member of a cluster is: it came through the fragment branch of receive() *)
+Definition member_ok (p : packet) : Prop := fl_bit 0 (p_flags p) = true /\ fl_bit 1 (p_flags p) = false.
+Definition cl_wf (c : clus) : Prop := Forall member_ok (c_data c).
+Definition st_wf (st : fstate) : Prop := Forall (fun kc => cl_wf (snd kc)) st.
+Definition plain (q : packet) : Prop := fl_bit 1 (p_flags q) = false /\ fl_bit 0 (p_flags q) = false.
+
+Lemma st_wf_nil : st_wf [].
+Proof. constructor. Qed.
+Lemma f_lookup_wf g st c : st_wf st -> f_lookup g st = Some c -> cl_wf c.
 Proof.
+  induction st as [|[k c0] st IH]; cbn [f_lookup]; [discriminate|]. intros H. inversion H; subst.
+  destruct (k =? g); [intros E; inversion E; subst; assumption | apply IH; assumption].
+Qed.
+Lemma f_remove_wf g st : st_wf st -> st_wf (f_remove g st).
+Proof.
+  unfold st_wf, f_remove. rewrite !Forall_forall. intros H x Hx. apply filter_In in Hx. apply H. tauto.
+Qed.
+
+Lemma cl_add_np c p : cl_add c p <> Panic.
+Proof.
+  unfold cl_add. destruct (match c_data c with d0 :: _ => negb (belongs d0 p) | [] => false end); [discriminate|].
+  destruct (is_nil (p_body p)); discriminate.
+Qed.
+Lemma cl_add_wf c p c' : cl_wf c -> member_ok p -> cl_add c p = Ok c' -> cl_wf c'.
+Proof.
+  unfold cl_add, cl_wf. intros Hc Hp.
+  destruct (match c_data c with d0 :: _ => negb (belongs d0 p) | [] => false end); [discriminate|].
+  destruct (is_nil (p_body p)); intros E; inversion E; subst; cbn [c_data]; [exact Hc|].
+  apply Forall_app. split; [exact Hc | constructor; [exact Hp | constructor]].
+Qed.
+
+Lemma insert_pos_Forall (P : packet -> Prop) q l : P q -> Forall P l -> Forall P (insert_pos q l).
+Proof.
+  intros Hq. induction l as [|x r IH]; intros Hl; cbn [insert_pos]; [constructor; [exact Hq | constructor]|].
+  inversion Hl; subst. destruct (_ <=? _); constructor; auto.
+Qed.
+Lemma sort_pos_Forall (P : packet -> Prop) l : Forall P l -> Forall P (sort_pos l).
+Proof.
+  induction l as [|x r IH]; intros Hl; cbn [sort_pos fold_right]; [constructor|].
+  inversion Hl; subst. apply insert_pos_Forall; [assumption | apply IH; assumption].
+Qed.
+Lemma insert_pos_len q l : len (insert_pos q l) = 1 + len l.
+Proof.
+  induction l as [|x r IH]; cbn [insert_pos]; [reflexivity|]. destruct (_ <=? _); rewrite !len_cons; [rewrite IH|]; lia.
+Qed.
+Lemma sort_pos_len l : len (sort_pos l) = len l.
+Proof.
+  induction l as [|x r IH]; cbn [sort_pos fold_right]; [reflexivity|].
+  fold (sort_pos r). rewrite insert_pos_len, len_cons, IH. reflexivity.
+Qed.
+
+Lemma fl_clear_bits fl : fl_bit 1 fl = false -> fl_bit 0 fl = true ->
+  fl_bit 1 (fl_clear fl) = false /\ fl_bit 0 (fl_clear fl) = false.
+Proof.
+  unfold fl_bit, fl_clear. intros H1 H0. change 65536 with (2 ^ 16).
+  rewrite !Z.lxor_spec, !Z.mod_pow2_bits_low by lia. rewrite H1, H0. split; reflexivity.
+Qed.
+
+Lemma padd_bits n x : member_ok n -> member_ok x -> member_ok (padd n x).
+Proof.
+  unfold padd, member_ok, fl_bit. intros [N0 N1] [X0 X1].
+  destruct (is_nil (p_body x) || negb (p_id n =? p_id x)); [split; assumption|]. cbn [p_flags].
+  change 65536 with (2 ^ 16). rewrite !Z.lor_spec, !Z.mod_pow2_bits_low by lia. rewrite N0, N1, X1. split; reflexivity.
+Qed.
+Lemma fold_padd_bits tl : forall n, member_ok n -> Forall member_ok tl -> member_ok (fold_left padd tl n).
+Proof.
+  induction tl as [|x tl IH]; intros n Hn Ht; cbn [fold_left]; [exact Hn|].
+  inversion Ht; subst. apply IH; [apply padd_bits; assumption | assumption].
+Qed.
+Lemma merge_plain n tl : member_ok n -> Forall member_ok tl -> plain (merge n tl).
+Proof.
+  intros Hn Ht. unfold merge, plain. cbn [with_flags p_flags].
+  destruct (fold_padd_bits tl n Hn Ht) as [B0 B1]. apply fl_clear_bits; assumption.
+Qed.
+
+Lemma Forall_drop {X} (P : X -> Prop) k (l : list X) : Forall P l -> Forall P (drop k l).
+Proof.
+  unfold drop. generalize (Z.to_nat k). intros n. revert l. induction n; intros l H; [exact H|].
+  destruct l; [constructor|]. cbn [skipn]. inversion H; subst. apply IHn. assumption.
+Qed.
+
+Lemma idx_some_gen {X} (b : list X) i : 0 <= i < len b -> exists x, idx b i = Ok x /\ In x b.
+Proof.
+  intros H. unfold idx. replace (i <? 0) with false by lia.
+  destruct (nth_error b (Z.to_nat i)) eqn:E.
+  - exists x. split; [reflexivity|]. eapply nth_error_In. exact E.
+  - apply nth_error_None in E. unfold len in H. lia.
+Qed.
+
+(* with the guard, done() indexes data[0] only when there is one; a completed group is a
+   Packet that is neither a container nor a fragment *)
+Lemma cl_done_spec c : cl_wf c ->
+  (cl_done c = Ok None) \/ (exists v, cl_done c = Ok (Some v) /\ plain v).
+Proof.
+  unfold cl_done, cl_done_g, cl_wf. intros Hc. cbn [andb].
+  destruct (c_data c) as [|d0 r] eqn:Ed; [left; reflexivity|]. cbn [is_nil].
+  destruct (c_max c <? _); [|left; reflexivity]. right.
+  assert (Hs : Forall member_ok (sort_pos (d0 :: r))) by (apply sort_pos_Forall; exact Hc).
+  pose proof (sort_pos_len (d0 :: r)) as Hl. rewrite len_cons in Hl. pose proof (len_nonneg r).
+  destruct (idx_some_gen (sort_pos (d0 :: r)) 0 ltac:(lia)) as (n & En & Hin). rewrite En. cbn [bind].
+  eexists. split; [reflexivity|]. apply merge_plain.
+  - rewrite Forall_forall in Hs. apply Hs. exact Hin.
+  - apply Forall_drop. exact Hs.
+Qed.
+
+(* without the guard the same function panics on a group whose two parts are both empty
+   (reachable: the cluster is what two cluster.add calls leave behind) *)
+Lemma frag_done_guard_needed :
+  let e0 := Build_packet 192 7 (2 * 281474976710656 + 0 * 4294967296 + 8 * 65536 + 1) 0 [] [] [65] in
+  let e1 := Build_packet 192 7 (2 * 281474976710656 + 1 * 4294967296 + 8 * 65536 + 1) 0 [] [] [65] in
+  exists c1 c2, cl_add (Build_clus 0 0 []) e0 = Ok c1 /\ cl_add c1 e1 = Ok c2 /\
+                cl_done_g true c2 = Ok None /\ cl_done_g false c2 = Panic.
+Proof. cbv zeta. eexists. eexists. repeat split; vm_compute; reflexivity. Qed.
+
+(* a Packet that is neither a container nor a fragment is finished in one step *)
+Lemma recv_b_plain f self st q : plain q ->
+  recv_b (S f) self st q = ret st \/ recv_b (S f) self st q = lift (Err EOther).
+Proof.
+  intros [H1 H0]. cbn [recv_b].
+  destruct (_ && _ && _); [left; reflexivity|]. destruct (_ && _); [right; reflexivity|].
+  destruct (fl_bit 6 (p_flags q)); [left; reflexivity|]. destruct (_ && _); [left; reflexivity|].
+  rewrite H1, H0. left. reflexivity.
+Qed.
+
+Lemma recv_unpack_spec fuel :
+  (forall self st p, st_wf st -> bytes_ok (p_body p) = true ->
+     np (recv_b fuel self st p) /\ alloc (recv_b fuel self st p) <= 2 * len (p_body p) + slack (recv_b fuel self st p) /\
+     (forall st', outcome (recv_b fuel self st p) = Ok st' -> st_wf st')) /\
+  (forall self st x body, st_wf st -> bytes_ok body = true ->
+     np (unpack_b fuel self st x body) /\ alloc (unpack_b fuel self st x body) <= 2 * len body + slack (unpack_b fuel self st x body) /\
+     (forall st', outcome (unpack_b fuel self st x body) = Ok st' -> st_wf st')).
+Proof.
+  assert (Rret : forall st B, st_wf st -> 0 <= B ->
+            np (ret st) /\ alloc (ret st) <= B + slack (ret st) /\ (forall st', outcome (ret st) = Ok st' -> st_wf st')).
+  { intros st B Hw HB. destruct (slack_ret st B HB) as [R1 R2]. split; [exact R1|]. split; [exact R2|].
+    intros st' E. cbn in E. inversion E; subst. exact Hw. }
+  assert (Rerr : forall e B, 0 <= B ->
+            np (@lift fstate (Err e)) /\ alloc (@lift fstate (Err e)) <= B + slack (@lift fstate (Err e)) /\
+            (forall st', outcome (@lift fstate (Err e)) = Ok st' -> st_wf st')).
+  { intros e B HB. destruct (slack_lift (@Err fstate e) B ltac:(discriminate) HB) as [R1 R2]. split; [exact R1|]. split; [exact R2|].
+    intros st' E. cbn in E. discriminate. }
   induction fuel as [|f [IHr IHu]].
-  - split; intros; cbn [recv_b unpack_b]; apply slack_lift; try discriminate; apply Z.mul_nonneg_nonneg; try lia; apply len_nonneg.
+  - split; intros; cbn [recv_b unpack_b]; apply Rerr; apply Z.mul_nonneg_nonneg; try lia; apply len_nonneg.
   - split.
-    + intros self st p Hb. cbn [recv_b]. pose proof (len_nonneg (p_body p)).
-      destruct ((p_id p <? 2) && is_nil (p_body p) && ((p_flags p =? 0) || (p_flags p =? 4))); [apply slack_ret; lia|].
-      destruct (negb (fl_bit 7 (p_flags p)) && negb (zlist_eqb self (p_dev p))); [apply slack_lift; [discriminate|lia]|].
-      destruct (fl_bit 6 (p_flags p)); [apply slack_ret; lia|].
-      destruct ((p_id p =? 4) && negb (fl_bit 8 (p_flags p))); [apply slack_ret; lia|].
-      destruct (fl_bit 1 (p_flags p)).
-      { destruct (fl_len (p_flags p) =? 0); [apply slack_lift; [discriminate|lia]|]. apply IHu. exact Hb. }
-      destruct (fl_bit 0 (p_flags p)); [|apply slack_ret; lia].
-      destruct ((p_id p =? 6) || (p_id p =? 3)); [apply slack_ret; lia|].
-      destruct (fl_len (p_flags p) =? 0); [apply slack_lift; [discriminate|lia]|].
-      destruct (fl_len (p_flags p) =? 1). { apply (IHr self st (with_flags (fl_clear (p_flags p)) p)). exact Hb. }
-      destruct (f_lookup (fl_group (p_flags p)) st).
-      * apply slack_lift; [apply clus_add_np | lia].
-      * destruct (0 <? fl_pos (p_flags p)); [apply slack_ret; lia | apply slack_lift; [apply clus_add_np | lia]].
-    + intros self st x body Hb. cbn [unpack_b]. pose proof (len_nonneg body).
-      destruct (x <=? 0); [apply slack_ret; lia|].
+    + intros self st p Hw Hb. cbn [recv_b]. pose proof (len_nonneg (p_body p)).
+      destruct ((p_id p <? 2) && is_nil (p_body p) && ((p_flags p =? 0) || (p_flags p =? 4))); [apply Rret; [exact Hw|lia]|].
+      destruct (negb (fl_bit 7 (p_flags p)) && negb (zlist_eqb self (p_dev p))); [apply Rerr; lia|].
+      destruct (fl_bit 6 (p_flags p)); [apply Rret; [exact Hw|lia]|].
+      destruct ((p_id p =? 4) && negb (fl_bit 8 (p_flags p))); [apply Rret; [exact Hw|lia]|].
+      destruct (fl_bit 1 (p_flags p)) eqn:E1.
+      { destruct (fl_len (p_flags p) =? 0); [apply Rerr; lia|]. apply IHu; assumption. }
+      destruct (fl_bit 0 (p_flags p)) eqn:E0; [|apply Rret; [exact Hw|lia]].
+      destruct ((p_id p =? 6) || (p_id p =? 3)); [apply Rret; [exact Hw|lia]|].
+      destruct (fl_len (p_flags p) =? 0); [apply Rerr; lia|].
+      destruct (fl_len (p_flags p) =? 1). { apply (IHr self st (with_flags (fl_clear (p_flags p)) p)); assumption. }
+      assert (Hm : member_ok p) by (split; assumption).
+      assert (Hgo : forall c, cl_wf c ->
+        let a := match cl_add c p with
+                 | Ok c' => match cl_done c' with
+                            | Ok (Some v) => recv_b f self (f_remove (fl_group (p_flags p)) st) v
+                            | Ok None => ret ((fl_group (p_flags p), c') :: f_remove (fl_group (p_flags p)) st)
+                            | Err e => lift (Err e)
+                            | Panic => lift Panic
+                            end
+                 | Err e => lift (Err e)
+                 | Panic => lift Panic
+                 end in
+        np a /\ alloc a <= 2 * len (p_body p) + slack a /\ (forall st', outcome a = Ok st' -> st_wf st')).
+      { intros c Hc. cbv zeta. pose proof (cl_add_np c p) as Hn.
+        destruct (cl_add c p) as [c'|e|] eqn:Ea; [|apply Rerr; lia | exfalso; apply Hn; reflexivity].
+        pose proof (cl_add_wf _ _ _ Hc Hm Ea) as Hc'.
+        destruct (cl_done_spec c' Hc') as [Ed | (v & Ed & Hv)]; rewrite Ed.
+        - apply Rret; [|lia]. constructor; [exact Hc' | apply f_remove_wf; exact Hw].
+        - destruct f as [|f'].
+          + cbn [recv_b]. apply Rerr; lia.
+          + destruct (recv_b_plain f' self (f_remove (fl_group (p_flags p)) st) v Hv) as [-> | ->].
+            * apply Rret; [apply f_remove_wf; exact Hw | lia].
+            * apply Rerr; lia. }
+      destruct (f_lookup (fl_group (p_flags p)) st) as [c|] eqn:El.
+      * apply Hgo. eapply f_lookup_wf; eassumption.
+      * destruct (0 <? fl_pos (p_flags p)); [apply Rret; [exact Hw|lia]|]. apply Hgo. constructor.
+    + intros self st x body Hw Hb. cbn [unpack_b]. pose proof (len_nonneg body).
+      destruct (x <=? 0); [apply Rret; [exact Hw|lia]|].
       destruct (packet_stream_spec body Hb) as [P1 P2].
       destruct (outcome (packet_stream body)) as [[v r]|e|] eqn:Ep.
       * destruct (packet_stream_cost body v r Hb Ep) as (C1 & C2 & C3 & _).
         rewrite (abind_ok _ _ _ Ep).
-        destruct (IHr self st v C2) as [R1 R2].
+        destruct (IHr self st v Hw C2) as (R1 & R2 & R3).
         destruct (outcome (recv_b f self st v)) as [st'|e|] eqn:Er.
-        -- rewrite (abind_ok _ _ _ Er). destruct (IHu self st' (x - 1) r C3) as [U1 U2].
+        -- rewrite (abind_ok _ _ _ Er). destruct (IHu self st' (x - 1) r (R3 st' eq_refl) C3) as (U1 & U2 & U3).
            unfold slack in *. rewrite Er in R2. unfold np, outcome, alloc in *. cbn [fst snd].
-           split; [exact U1|]. pose proof (len_nonneg (p_body v)). pose proof (len_nonneg r). lia.
+           split; [exact U1|]. pose proof (len_nonneg (p_body v)). pose proof (len_nonneg r). split; [lia | exact U3].
         -- rewrite (abind_err _ _ _ Er). unfold slack in *. rewrite Er in R2. unfold np, outcome, alloc in *. cbn [fst snd].
-           split; [discriminate|]. pose proof (len_nonneg (p_body v)). pose proof (len_nonneg r). lia.
+           split; [discriminate|]. pose proof (len_nonneg (p_body v)). pose proof (len_nonneg r). split; [lia | intros; discriminate].
         -- exfalso. apply R1. exact Er.
-      * rewrite (abind_err _ _ _ Ep). unfold slack, np, outcome, alloc in *. cbn [fst snd]. split; [discriminate|]. lia.
+      * rewrite (abind_err _ _ _ Ep). unfold slack, np, outcome, alloc in *. cbn [fst snd]. split; [discriminate|]. split; [lia | intros; discriminate].
       * exfalso. apply P1. exact Ep.
 Qed.
 
@@ -1135,17 +1288,67 @@ Proof.
   destruct (packet_stream_spec s Hs) as [P1 P2].
   destruct (outcome (packet_stream s)) as [[p r]|e|] eqn:Ep.
   - destruct (packet_stream_cost s p r Hs Ep) as (C1 & C2 & C3 & _). rewrite (abind_ok _ _ _ Ep).
-    destruct (proj1 (recv_unpack_spec (S (S (length s)))) self [] p C2) as [R1 R2].
-    assert (Hsl : slack (recv_b (S (S (length s))) self [] p) <= TagsMax).
-    { unfold slack. generalize (outcome (recv_b (S (S (length s))) self [] p)). intros o. destruct o; unfold TagsMax; lia. }
+    destruct (proj1 (recv_unpack_spec (recv_fuel p)) self [] p st_wf_nil C2) as (R1 & R2 & _).
+    pose proof (slack_nonneg (recv_b (recv_fuel p) self [] p)) as Hs0.
+    assert (Hsl : slack (recv_b (recv_fuel p) self [] p) <= TagsMax).
+    { unfold slack. generalize (outcome (recv_b (recv_fuel p) self [] p)). intros o. destruct o; unfold TagsMax; lia. }
     pose proof (len_nonneg r). pose proof (len_nonneg (p_body p)).
-    destruct (outcome (recv_b (S (S (length s))) self [] p)) as [st|e|] eqn:Er.
+    destruct (outcome (recv_b (recv_fuel p) self [] p)) as [st|e|] eqn:Er.
     + rewrite (abind_ok _ _ _ Er). unfold np, outcome, alloc in *. cbn [fst snd ret]. split; [discriminate|]. unfold TagsMax in *. lia.
     + rewrite (abind_err _ _ _ Er). unfold np, outcome, alloc in *. cbn [fst snd]. split; [discriminate|]. unfold TagsMax in *. lia.
     + exfalso. apply R1. exact Er.
   - rewrite (abind_err _ _ _ Ep). unfold np, outcome, alloc in *. cbn [fst snd]. split; [discriminate|]. unfold TagsMax in *. lia.
   - exfalso. apply P1. exact Ep.
 Qed.
+
+(* ---- ALL sequences of Packets handed to one Session: any flags, positions, lengths, group
+   ids, empty or not, duplicates, in any order ---- *)
+Theorem recv_packets_no_panic self : forall ps st, st_wf st ->
+  Forall (fun p => bytes_ok (p_body p) = true) ps -> np (recv_packets self st ps).
+Proof.
+  induction ps as [|p ps IH]; intros st Hw Hb; cbn [recv_packets]; [discriminate|].
+  inversion Hb; subst.
+  destruct (proj1 (recv_unpack_spec (recv_fuel p)) self st p Hw H1) as (R1 & _ & R3). unfold np.
+  destruct (outcome (recv_b (recv_fuel p) self st p)) as [st'|e|] eqn:Er.
+  - rewrite (abind_ok _ _ _ Er). cbn [outcome fst]. apply IH; [apply R3; reflexivity | assumption].
+  - rewrite (abind_err _ _ _ Er). discriminate.
+  - exfalso. apply R1. exact Er.
+Qed.
+
+Lemma recv_stream_spec fuel : forall self st s, st_wf st -> bytes_ok s = true ->
+  np (recv_stream fuel self st s) /\ alloc (recv_stream fuel self st s) <= 2 * len s + slack (recv_stream fuel self st s).
+Proof.
+  induction fuel as [|f IH]; intros self st s Hw Hb; cbn [recv_stream]; pose proof (len_nonneg s).
+  - apply slack_lift; [discriminate | lia].
+  - destruct (is_nil s); [apply slack_ret; lia|].
+    destruct (packet_stream_spec s Hb) as [P1 P2].
+    destruct (outcome (packet_stream s)) as [[v r]|e|] eqn:Ep.
+    + destruct (packet_stream_cost s v r Hb Ep) as (C1 & C2 & C3 & _). rewrite (abind_ok _ _ _ Ep).
+      destruct (proj1 (recv_unpack_spec (recv_fuel v)) self st v Hw C2) as (R1 & R2 & R3).
+      destruct (outcome (recv_b (recv_fuel v) self st v)) as [st'|e|] eqn:Er.
+      * rewrite (abind_ok _ _ _ Er). destruct (IH self st' r (R3 st' eq_refl) C3) as [U1 U2].
+        unfold slack in *. rewrite Er in R2. unfold np, outcome, alloc in *. cbn [fst snd].
+        split; [exact U1|]. pose proof (len_nonneg (p_body v)). pose proof (len_nonneg r). lia.
+      * rewrite (abind_err _ _ _ Er). unfold slack in *. rewrite Er in R2. unfold np, outcome, alloc in *. cbn [fst snd].
+        split; [discriminate|]. pose proof (len_nonneg (p_body v)). pose proof (len_nonneg r). lia.
+      * exfalso. apply R1. exact Er.
+    + rewrite (abind_err _ _ _ Ep). unfold slack, np, outcome, alloc in *. cbn [fst snd]. split; [discriminate|]. lia.
+    + exfalso. apply P1. exact Ep.
+Qed.
+
+Theorem receive_seq_spec self s : bytes_ok s = true ->
+  np (receive_seq self s) /\ alloc (receive_seq self s) <= 2 * len s + TagsMax.
+Proof.
+  intros Hs. unfold receive_seq. pose proof (len_nonneg s).
+  destruct (recv_stream_spec (S (length s)) self [] s st_wf_nil Hs) as [R1 R2].
+  assert (Hsl : slack (recv_stream (S (length s)) self [] s) <= TagsMax).
+  { unfold slack. generalize (outcome (recv_stream (S (length s)) self [] s)). intros o. destruct o; unfold TagsMax; lia. }
+  destruct (outcome (recv_stream (S (length s)) self [] s)) as [st|e|] eqn:Er.
+  - rewrite (abind_ok _ _ _ Er). unfold np, outcome, alloc in *. cbn [fst snd ret]. split; [discriminate|]. lia.
+  - rewrite (abind_err _ _ _ Er). unfold np, outcome, alloc in *. cbn [fst snd]. split; [discriminate|]. lia.
+  - exfalso. apply R1. exact Er.
+Qed.
+
 
 (* ===================================================================================
    10. the fuel of the model loops is never exhausted (EFuel is unreachable): this is the
@@ -1351,62 +1554,66 @@ Proof.
   apply anofuel_lift_bind; [apply rd_bytes_nf|]. intros [? ?] _. discriminate.
 Qed.
 
-Lemma clus_add_nf g c p st : nofuel (clus_add g c p st).
+Lemma cl_add_nf c p : nofuel (cl_add c p).
 Proof.
-  unfold nofuel, clus_add. destruct (match c_first c with Some (i, j) => negb ((i =? p_id p) && (j =? p_job p)) | None => false end); [discriminate|].
-  destruct (is_nil (p_body p)); cbn [c_n c_e].
-  - destruct (c_n c =? 0); [discriminate|]. destruct (_ <? _); discriminate.
-  - destruct (c_n c + 1 =? 0); [discriminate|]. destruct (_ <? _); discriminate.
-Qed.
-
-(* a packet that is neither a container nor a fragment is finished in one step *)
-Lemma recv_b_plain f self st q : fl_bit 1 (p_flags q) = false -> fl_bit 0 (p_flags q) = false ->
-  anofuel (recv_b (S f) self st q).
-Proof.
-  intros H1 H0. cbn [recv_b]. unfold anofuel.
-  destruct (_ && _ && _); [discriminate|]. destruct (_ && _); [discriminate|].
-  destruct (fl_bit 6 (p_flags q)); [discriminate|]. destruct (_ && _); [discriminate|].
-  rewrite H1, H0. discriminate.
-Qed.
-
-Lemma fl_clear_bits fl : fl_bit 1 fl = false -> fl_bit 0 fl = true ->
-  fl_bit 1 (fl_clear fl) = false /\ fl_bit 0 (fl_clear fl) = false.
-Proof.
-  unfold fl_bit, fl_clear. intros H1 H0. change 65536 with (2 ^ 16).
-  rewrite !Z.lxor_spec, !Z.mod_pow2_bits_low by lia. rewrite H1, H0. split; reflexivity.
+  unfold nofuel, cl_add. destruct (match c_data c with d0 :: _ => negb (belongs d0 p) | [] => false end); [discriminate|].
+  destruct (is_nil (p_body p)); discriminate.
 Qed.
 
 Lemma recv_unpack_fuel fuel :
-  (forall self st p, bytes_ok (p_body p) = true -> (length (p_body p) + 2 < fuel)%nat -> anofuel (recv_b fuel self st p)) /\
-  (forall self st x body, bytes_ok body = true -> (length body < fuel)%nat -> anofuel (unpack_b fuel self st x body)).
+  (forall self st p, st_wf st -> bytes_ok (p_body p) = true -> (length (p_body p) + 2 < fuel)%nat -> anofuel (recv_b fuel self st p)) /\
+  (forall self st x body, st_wf st -> bytes_ok body = true -> (length body < fuel)%nat -> anofuel (unpack_b fuel self st x body)).
 Proof.
   induction fuel as [|f [IHr IHu]]; [split; intros; lia|]. split.
-  - intros self st p Hb Hf. cbn [recv_b]. unfold anofuel.
+  - intros self st p Hw Hb Hf. cbn [recv_b]. unfold anofuel.
     destruct (_ && _ && _); [discriminate|]. destruct (_ && _); [discriminate|].
     destruct (fl_bit 6 (p_flags p)); [discriminate|]. destruct (_ && _); [discriminate|].
     destruct (fl_bit 1 (p_flags p)) eqn:E1.
-    { destruct (fl_len (p_flags p) =? 0); [discriminate|]. apply IHu; [exact Hb | lia]. }
+    { destruct (fl_len (p_flags p) =? 0); [discriminate|]. apply IHu; [exact Hw | exact Hb | lia]. }
     destruct (fl_bit 0 (p_flags p)) eqn:E0; [|discriminate].
     destruct (_ || _); [discriminate|]. destruct (fl_len (p_flags p) =? 0); [discriminate|].
+    destruct f as [|f']; [lia|].
+    assert (Hpl : forall st0 q, plain q -> outcome (recv_b (S f') self st0 q) <> Err EFuel).
+    { intros st0 q Hq. destruct (recv_b_plain f' self st0 q Hq) as [-> | ->]; discriminate. }
     destruct (fl_len (p_flags p) =? 1).
-    { destruct f as [|f']; [lia|]. destruct (fl_clear_bits _ E1 E0) as [B1 B0]. apply recv_b_plain; cbn [with_flags p_flags]; assumption. }
-    destruct (f_lookup _ st).
-    + apply clus_add_nf.
-    + destruct (0 <? _); [discriminate | apply clus_add_nf].
-  - intros self st x body Hb Hf. cbn [unpack_b]. unfold anofuel.
+    { apply Hpl. destruct (fl_clear_bits _ E1 E0) as [B1 B0]. split; cbn [with_flags p_flags]; assumption. }
+    assert (Hm : member_ok p) by (split; assumption).
+    assert (Hgo : forall c, cl_wf c ->
+      outcome (match cl_add c p with
+               | Ok c' => match cl_done c' with
+                          | Ok (Some v) => recv_b (S f') self (f_remove (fl_group (p_flags p)) st) v
+                          | Ok None => ret ((fl_group (p_flags p), c') :: f_remove (fl_group (p_flags p)) st)
+                          | Err e => lift (Err e)
+                          | Panic => lift Panic
+                          end
+               | Err e => lift (Err e)
+               | Panic => lift Panic
+               end) <> Err EFuel).
+    { intros c Hc. pose proof (cl_add_nf c p) as Hn.
+      destruct (cl_add c p) as [c'|e|] eqn:Ea; [|cbn; intros E; apply Hn; inversion E; reflexivity | discriminate].
+      destruct (cl_done_spec c' (cl_add_wf _ _ _ Hc Hm Ea)) as [Ed | (v & Ed & Hv)]; rewrite Ed; [discriminate|].
+      apply Hpl. exact Hv. }
+    destruct (f_lookup _ st) as [c|] eqn:El.
+    + apply Hgo. eapply f_lookup_wf; eassumption.
+    + destruct (0 <? _); [discriminate | apply Hgo; constructor].
+  - intros self st x body Hw Hb Hf. cbn [unpack_b]. unfold anofuel.
     destruct (x <=? 0); [discriminate|].
     pose proof (packet_stream_fuel body) as Hp. destruct (packet_stream_spec body Hb) as [P1 _].
     destruct (outcome (packet_stream body)) as [[v r]|e|] eqn:Ep.
     + destruct (packet_stream_cost body v r Hb Ep) as (_ & C2 & C3 & C4). rewrite (abind_ok _ _ _ Ep). cbn [outcome fst].
       pose proof (len_nonneg r). pose proof (len_nonneg (p_body v)). unfold len in *.
-      assert (Hr : anofuel (recv_b f self st v)) by (apply IHr; [exact C2 | lia]).
+      assert (Hr : anofuel (recv_b f self st v)) by (apply IHr; [exact Hw | exact C2 | lia]).
+      destruct (proj1 (recv_unpack_spec f) self st v Hw C2) as (_ & _ & R3).
       destruct (outcome (recv_b f self st v)) as [st'|e|] eqn:Er.
-      * rewrite (abind_ok _ _ _ Er). cbn [fst]. apply IHu; [exact C3 | lia].
+      * rewrite (abind_ok _ _ _ Er). cbn [fst]. apply IHu; [apply R3; reflexivity | exact C3 | lia].
       * rewrite (abind_err _ _ _ Er). cbn. unfold anofuel in Hr. rewrite Er in Hr. exact Hr.
       * rewrite (abind_panic _ _ Er). discriminate.
     + rewrite (abind_err _ _ _ Ep). cbn. unfold anofuel in Hp. rewrite Ep in Hp. intros E. apply Hp. inversion E; reflexivity.
     + exfalso. apply P1. exact Ep.
 Qed.
+
+Lemma recv_fuel_ok self st p : st_wf st -> bytes_ok (p_body p) = true -> anofuel (recv_b (recv_fuel p) self st p).
+Proof. intros Hw Hb. apply (proj1 (recv_unpack_fuel _)); [exact Hw | exact Hb | unfold recv_fuel; lia]. Qed.
 
 Theorem receive_bytes_fuel self s : bytes_ok s = true -> outcome (receive_bytes self s) <> Err EFuel.
 Proof.
@@ -1414,16 +1621,56 @@ Proof.
   pose proof (packet_stream_fuel s) as Hp. destruct (packet_stream_spec s Hs) as [P1 _].
   destruct (outcome (packet_stream s)) as [[p r]|e|] eqn:Ep.
   - destruct (packet_stream_cost s p r Hs Ep) as (_ & C2 & _ & C4). rewrite (abind_ok _ _ _ Ep). cbn [outcome fst].
-    pose proof (len_nonneg r). unfold len in *.
-    assert (Hr : anofuel (recv_b (S (S (length s))) self [] p)) by (apply (proj1 (recv_unpack_fuel _)); [exact C2 | lia]).
-    unfold anofuel in Hr.
-    destruct (outcome (recv_b (S (S (length s))) self [] p)) as [st|e|] eqn:Er.
+    pose proof (recv_fuel_ok self [] p st_wf_nil C2) as Hr. unfold anofuel in Hr.
+    destruct (outcome (recv_b (recv_fuel p) self [] p)) as [st|e|] eqn:Er.
     + rewrite (abind_ok _ _ _ Er). discriminate.
     + rewrite (abind_err _ _ _ Er). cbn. intros E. apply Hr. inversion E; reflexivity.
     + rewrite (abind_panic _ _ Er). discriminate.
   - rewrite (abind_err _ _ _ Ep). cbn. unfold anofuel in Hp. rewrite Ep in Hp. intros E. apply Hp. inversion E; reflexivity.
   - exfalso. apply P1. exact Ep.
 Qed.
+
+Theorem recv_packets_fuel self : forall ps st, st_wf st ->
+  Forall (fun p => bytes_ok (p_body p) = true) ps -> outcome (recv_packets self st ps) <> Err EFuel.
+Proof.
+  induction ps as [|p ps IH]; intros st Hw Hb; cbn [recv_packets]; [discriminate|].
+  inversion Hb; subst. pose proof (recv_fuel_ok self st p Hw H1) as Hr. unfold anofuel in Hr.
+  destruct (proj1 (recv_unpack_spec (recv_fuel p)) self st p Hw H1) as (_ & _ & R3).
+  destruct (outcome (recv_b (recv_fuel p) self st p)) as [st'|e|] eqn:Er.
+  - rewrite (abind_ok _ _ _ Er). cbn [outcome fst]. apply IH; [apply R3; reflexivity | assumption].
+  - rewrite (abind_err _ _ _ Er). cbn. exact Hr.
+  - rewrite (abind_panic _ _ Er). discriminate.
+Qed.
+
+Lemma recv_stream_fuel fuel : forall self st s, st_wf st -> bytes_ok s = true -> (length s < fuel)%nat ->
+  anofuel (recv_stream fuel self st s).
+Proof.
+  induction fuel as [|f IH]; intros self st s Hw Hb Hf; [lia|]. cbn [recv_stream]. unfold anofuel.
+  destruct (is_nil s); [discriminate|].
+  pose proof (packet_stream_fuel s) as Hp. destruct (packet_stream_spec s Hb) as [P1 _].
+  destruct (outcome (packet_stream s)) as [[v r]|e|] eqn:Ep.
+  - destruct (packet_stream_cost s v r Hb Ep) as (_ & C2 & C3 & C4). rewrite (abind_ok _ _ _ Ep). cbn [outcome fst].
+    pose proof (recv_fuel_ok self st v Hw C2) as Hr. unfold anofuel in Hr.
+    destruct (proj1 (recv_unpack_spec (recv_fuel v)) self st v Hw C2) as (_ & _ & R3).
+    pose proof (len_nonneg r). pose proof (len_nonneg (p_body v)). unfold len in *.
+    destruct (outcome (recv_b (recv_fuel v) self st v)) as [st'|e|] eqn:Er.
+    + rewrite (abind_ok _ _ _ Er). cbn [fst]. apply IH; [apply R3; reflexivity | exact C3 | lia].
+    + rewrite (abind_err _ _ _ Er). cbn. exact Hr.
+    + rewrite (abind_panic _ _ Er). discriminate.
+  - rewrite (abind_err _ _ _ Ep). cbn. unfold anofuel in Hp. rewrite Ep in Hp. intros E. apply Hp. inversion E; reflexivity.
+  - exfalso. apply P1. exact Ep.
+Qed.
+
+Theorem receive_seq_fuel self s : bytes_ok s = true -> outcome (receive_seq self s) <> Err EFuel.
+Proof.
+  intros Hs. unfold receive_seq.
+  pose proof (recv_stream_fuel (S (length s)) self [] s st_wf_nil Hs ltac:(lia)) as Hr. unfold anofuel in Hr.
+  destruct (outcome (recv_stream (S (length s)) self [] s)) as [st|e|] eqn:Er.
+  - rewrite (abind_ok _ _ _ Er). discriminate.
+  - rewrite (abind_err _ _ _ Er). cbn. intros E. apply Hr. inversion E; reflexivity.
+  - rewrite (abind_panic _ _ Er). discriminate.
+Qed.
+
 
 (* ===================================================================================
    11. Session.JSON: the text is one JSON value followed by nothing, whatever the leaves are,
